@@ -101,16 +101,19 @@ CLAIMS = [
     },
     {
         "property_id": "C03",
-        "technique": "Lean 4 exclusion theorems over the protocol transition system + K3 lockset/protocol monitor and trace replay",
+        "technique": "Lean 4 exclusion theorems over the protocol transition system + decided memory-order table generated from the source's LLVM IR (T-C) + K3 lockset/protocol monitor and trace replay + K4 ThreadSanitizer runs",
         "text": "Props/C03.lean: a lock has one holder; whoever touches a bucket (or runs a functor on it, or touches its stripe's counter/flag) holds the "
                 "stripe in the current lock array and is validated or owns the table; two threads allowed to touch the same stripe are the same "
-                "thread; an owner (lock_all / locked section) excludes every validated thread and every access. Hence updates of one key are "
-                "serialised (no lost update) and a reader sees before-or-after (no torn read). K3 checks on the real code that every bucket "
-                "access / functor call / metadata access event happens under the right stripe of the current array. PARTIAL: the data-race "
-                "clause in the C++ memory-model sense is not proved (no hardware memory model); the unsynchronised read of the lock-array list "
-                "(all_locks_.back() vs emplace_back) is outside the protocol model.",
+                "thread; an owner (lock_all / locked section) excludes every validated thread and every access — hence updates of one key are "
+                "serialised (no lost update) and a reader sees before-or-after (no torn read). sync_orders_sufficient (decide over Gen/MemOrder.lean, "
+                "regenerated from the IR with a text cross-check): lock = acq_rel RMW, unlock = release, hashpower/resize-counter loads acquire, every "
+                "publication (hashpower store, all three counter bumps, lazy-counter store) release, lazy decrement acq_rel. K3 checks on the real code "
+                "that every bucket access / functor call / metadata access happens under the right stripe of the current array. PARTIAL: the data-race "
+                "clause in the C++ memory-model sense is NOT a theorem (no hardware memory model in Lean); it is monitored by K4 (free-running threads "
+                "under ThreadSanitizer, guard off). One race is a genuine open finding (F8: unsynchronised read of the lock-array list vs append) and "
+                "is reported as KNOWN-FINDING; any other ThreadSanitizer report is a violation.",
         "design_ref": "DESIGN.md 6/C03, 12",
-        "note": "Trusted as for C01. Memory orders of the atomics are not yet tied by a translator (T-C planned).",
+        "note": "Trusted as for C01, plus ThreadSanitizer's happens-before model for K4.",
     },
     {
         "property_id": "C04",
